@@ -401,6 +401,8 @@ func checkC10(c *Ctx) {
 	c10MetaKept(c, "R-meta-kept")
 	c10FlattenKeepsAll(c)
 	c10OneResponder(c, "R-one-responder")
+	c10SenderSendsAll(c, "R-sender-sends-all")
+	c10NoBuiltinTimeouts(c, "R-no-transport-timeout")
 }
 
 func c10Client(c *Ctx) {
@@ -967,5 +969,114 @@ func c10OneResponder(c *Ctx, rule string) {
 	}
 	if n == 0 {
 		c.R.Hold(rule, "no function answers on a streaming branch", "", "")
+	}
+}
+
+// c10SenderSendsAll (R-sender-sends-all): "all progress, log and custom notifications a tool handler emits … are
+// delivered": the methods of the streaming notification sender (the implementation of the sender interface whose
+// methods reach a Flush) put every notification on the wire — no path returns success without having written or
+// delegated to another method of the sender. A filter inside the sender (dropping progress values that do not
+// increase, de-duplicating messages) silently loses notifications the handler emitted.
+func c10SenderSendsAll(c *Ctx, rule string) {
+	senderI := c.senderIface()
+	if senderI == nil {
+		return
+	}
+	iface := senderI.Underlying().(*types.Interface)
+	n := 0
+	for _, T := range c.P.Implementers(iface) {
+		// the streaming one: its methods reach a Flush (the no-op sender used for JSON responses does not)
+		streaming := false
+		for i := 0; i < iface.NumMethods(); i++ {
+			if m := c.P.Method(T, iface.Method(i).Name()); m != nil {
+				for f := range c.ReachSync(m) {
+					ir.EachCall(f, func(call ssa.CallInstruction) {
+						if ir.CallName(call) == "(net/http.Flusher).Flush" {
+							streaming = true
+						}
+					})
+				}
+			}
+		}
+		if !streaming {
+			continue
+		}
+		for i := 0; i < iface.NumMethods(); i++ {
+			m := c.P.Method(T, iface.Method(i).Name())
+			if m == nil || len(m.Blocks) == 0 {
+				continue
+			}
+			res := m.Signature.Results()
+			if res.Len() == 0 || ir.TypeStr(res.At(res.Len()-1).Type()) != "error" {
+				continue
+			}
+			sends := func(in ssa.Instruction) bool {
+				if r, ok := in.(*ssa.Return); ok {
+					// an error return is not a silent drop
+					rs := ir.Results(r)
+					return len(rs) > 0 && !ir.IsNilConst(rs[len(rs)-1])
+				}
+				call, ok := in.(*ssa.Call)
+				if !ok {
+					return false
+				}
+				if passesWriter(call) {
+					return true
+				}
+				// delegation to another method of the same sender, or to a function that is handed the sender's writer
+				if sc := ir.StaticCallee(call); sc != nil && c.P.IsLib(sc) && sc.Signature.Recv() != nil && len(call.Call.Args) > 0 && call.Call.Args[0] == ssa.Value(m.Params[0]) {
+					return true
+				}
+				for _, a := range call.Call.Args {
+					if f, base, ok := ir.LoadedField(a); ok && base == ssa.Value(m.Params[0]) && isWriterType(f.Type) {
+						return true
+					}
+				}
+				return false
+			}
+			n++
+			esc := flow.ExitsAvoiding(m, nil, sends, false)
+			c.R.Check(esc == nil, rule, fname(m)+" sends on every path", c.Pos(m.Pos()), "no successful return without writing the notification",
+				sprintf("%s can return success (near %s) without putting the notification on the stream: a notification the tool handler emitted is silently dropped by the sender", fname(m), iposEsc(c, esc)))
+		}
+	}
+	if n < 3 {
+		c.R.Break("%s: expected the streaming notification sender's methods (found %d)", rule, n)
+	}
+}
+
+// c10NoBuiltinTimeouts (R-no-transport-timeout): how long a tool stays quiet before its first notification, and how
+// long a call takes, is for the caller's context to limit — the library's own HTTP client must not: the response
+// headers of a POST answered as an event stream are committed with the first event only, so a ResponseHeaderTimeout
+// (or a Client.Timeout, which also covers reading the stream) fails calls whose handler is slow to speak. No library
+// function stores into those members of net/http's Client or Transport.
+func c10NoBuiltinTimeouts(c *Ctx, rule string) {
+	n := 0
+	for _, fn := range c.P.LibFns {
+		ir.EachInstr(fn, func(_ *ssa.BasicBlock, _ int, in ssa.Instruction) {
+			st, ok := in.(*ssa.Store)
+			if !ok {
+				return
+			}
+			f, _, ok := ir.FieldOf(st.Addr)
+			if !ok || f.Struct == nil {
+				return
+			}
+			owner := ir.TypeKey(f.Struct)
+			bad := (owner == "net/http.Client" && f.Name == "Timeout") ||
+				(owner == "net/http.Transport" && (f.Name == "ResponseHeaderTimeout"))
+			if !bad {
+				return
+			}
+			if cst, ok := st.Val.(*ssa.Const); ok && cst.Value != nil && cst.Value.String() == "0" {
+				return
+			}
+			n++
+			c.R.Violate(rule, sprintf("%s.%s set in %s", owner, f.Name, fname(fn)), c.Pos(st.Pos()),
+				sprintf("%s gives the library's own HTTP client a %s: a POST that is answered as an event stream commits its headers with the first event, so a tool that is quiet for longer than that (or a call that simply takes long) fails although the caller's context set no such limit", fname(fn), f.Name))
+		})
+	}
+	if n == 0 {
+		c.R.Hold(rule, "the library sets no response-header or whole-request timeout on its HTTP client", "", "")
 	}
 }
